@@ -10,6 +10,7 @@
 (***************************************************************************)
 EXTENDS Registry, Json
 CONSTANTS MaxChain,
+          Extras,     \* TRUE: the sibling / three-level block shapes (sib, deep) are part of the level choices
           Slim        \* TRUE: block a only (absent / defined / defined with super()), which affords longer chains
 PrefixesDef == <<>>
 VARIABLES n, cfg, done, rev
@@ -20,8 +21,8 @@ Kinds == {"none", "def", "super"}
 \* sa: super() written after the nested block (only meaningful when a calls super and b is nested in it)
 LevelChoices == {c \in [a : Kinds, b : Kinds, w : {"top", "nest", "cap"}, sa : BOOLEAN, sib : BOOLEAN, deep : BOOLEAN] :
                    ((c.a = "none" \/ c.b = "none") => c.w = "top") /\ (c.sa => c.a = "super" /\ c.w # "top")
-                   /\ (Slim => c.b = "none") /\ (c.sib => c.w = "nest" /\ c.a # "none" /\ c.b # "none" /\ ~c.sa)
-                   /\ (c.deep => c.w = "nest" /\ c.a # "none" /\ c.b = "super" /\ ~c.sa /\ ~c.sib /\ ~Slim)}
+                   /\ (Slim => c.b = "none") /\ (c.sib => Extras /\ c.w = "nest" /\ c.a # "none" /\ c.b # "none" /\ ~c.sa)
+                   /\ (c.deep => Extras /\ c.w = "nest" /\ c.a # "none" /\ c.b = "super" /\ ~c.sa /\ ~c.sib /\ ~Slim)}
 Init == /\ n \in 1..MaxChain /\ rev \in BOOLEAN /\ (n = 1 => ~rev)
         /\ cfg \in [1..MaxChain -> LevelChoices]
         /\ \A i \in 1..MaxChain : i > n => cfg[i] = [a |-> "none", b |-> "none", w |-> "top", sa |-> FALSE, sib |-> FALSE, deep |-> FALSE]
